@@ -244,8 +244,10 @@ def oracle(ran, fails, errs, noise, report, cutc, fault, delivered, full, result
         return 'num_ran %r, child ran %r' % (result.num_ran, ran)
     if names_f != exp_f or names_e != exp_e:
         return 'names recorded %r / %r, child reported %r / %r' % (names_f, names_e, exp_f, exp_e)
-    if fault in ('none', 'eintr_once', 'no_newline_end') and len(result.lines) != nout:
-        return 'stdout lines relayed %d, child wrote %d' % (len(result.lines), nout)
+    # the parent keeps draining the child's stdout until EOF, also after a transient read error: a parent that stops reading lets a
+    # child with more output than the pipe holds block for ever (and the parent with it, in stderr_thread.join())
+    if fault in ('none', 'eintr_once', 'eio_once', 'no_newline_end') and len(result.lines) != nout:
+        return 'stdout lines relayed %d, child wrote %d: the parent stopped draining the child\'s stdout' % (len(result.lines), nout)
     return None
 
 
